@@ -292,6 +292,82 @@ NumText(v) ==
 FmtOK(v) == IsNum(v) /\ FmtFits(v) /\ NDigits(v) <= (IF v.t = "D" THEN 17 ELSE 9)
 
 (***************************************************************************)
+(* Numeric text: INPUT fields, VAL                                          *)
+(***************************************************************************)
+IsBlank(c) == c = 32 \/ c = 9
+RECURSIVE TrimL(_), TrimR(_)
+TrimL(s) == IF s # <<>> /\ IsBlank(Head(s)) THEN TrimL(Tail(s)) ELSE s
+TrimR(s) == IF s # <<>> /\ IsBlank(s[Len(s)]) THEN TrimR(SubSeq(s, 1, Len(s) - 1)) ELSE s
+Trim(s) == TrimR(TrimL(s))
+Unquote(s) == IF Len(s) >= 2 /\ s[1] = 34 /\ s[Len(s)] = 34 THEN SubSeq(s, 2, Len(s) - 1) ELSE s
+IsDig(c) == c >= 48 /\ c <= 57
+IsAlpha(c) == (c >= 65 /\ c <= 90) \/ (c >= 97 /\ c <= 122)
+Upper(c) == IF c >= 97 /\ c <= 122 THEN c - 32 ELSE c
+RECURSIVE DigitsVal(_, _, _)
+DigitsVal(s, i, acc) == IF i > Len(s) THEN acc ELSE DigitsVal(s, i + 1, acc * 10 + (s[i] - 48))
+\* A numeric field (INPUT) / numeric text (VAL): decimal with optional sign, fraction and
+\* exponent (E or D), or the & (octal) and &H (hexadecimal) forms; the empty field is 0.
+\* Result: a Double (exact when it is a short dyadic, else Approx), an Integer for the radix
+\* forms, Err(TYPE MISMATCH) for text that is not a number, Unknown where the manual is silent
+\* (INF / NAN words, type suffixes, signs inside radix forms).
+AllDig(s) == \A i \in 1..Len(s) : IsDig(s[i])
+IsHexDig(c) == IsDig(c) \/ (Upper(c) >= 65 /\ Upper(c) <= 70)
+HexVal(c) == IF IsDig(c) THEN c - 48 ELSE Upper(c) - 55
+RECURSIVE RadixVal(_, _, _, _)
+RadixVal(s, i, r, acc) == IF i > Len(s) THEN acc ELSE RadixVal(s, i + 1, r, acc * r + HexVal(s[i]))
+IndexOf(s, P(_)) == LET hits == {i \in 1..Len(s) : P(s[i])} IN
+                    IF hits = {} THEN 0 ELSE CHOOSE i \in hits : \A k \in hits : i <= k
+ParseDecimal(f) ==
+  LET sgn  == IF f # <<>> /\ f[1] \in {43, 45} THEN 1 ELSE 0
+      neg  == sgn = 1 /\ f[1] = 45
+      body == SubSeq(f, sgn + 1, Len(f))
+      ei   == IndexOf(body, LAMBDA c : Upper(c) \in {69, 68})
+      mant == IF ei = 0 THEN body ELSE SubSeq(body, 1, ei - 1)
+      ex   == IF ei = 0 THEN <<>> ELSE SubSeq(body, ei + 1, Len(body))
+      esg  == IF ex # <<>> /\ ex[1] \in {43, 45} THEN 1 ELSE 0
+      eneg == esg = 1 /\ ex[1] = 45
+      edig == SubSeq(ex, esg + 1, Len(ex))
+      di   == IndexOf(mant, LAMBDA c : c = 46)
+      ip   == IF di = 0 THEN mant ELSE SubSeq(mant, 1, di - 1)
+      fp   == IF di = 0 THEN <<>> ELSE SubSeq(mant, di + 1, Len(mant))
+      wellformed == /\ AllDig(ip) /\ AllDig(fp) /\ (ip # <<>> \/ fp # <<>>)
+                    /\ (ei = 0 \/ (edig # <<>> /\ AllDig(edig)))
+  IN  IF ~wellformed THEN Err(ETypeMismatch)
+      ELSE IF Len(ip) + Len(fp) > 7 \/ Len(edig) > 1 THEN Unknown
+      ELSE LET Dg == DigitsVal(ip \o fp, 1, 0)
+               ev == (IF eneg THEN -1 ELSE 1) * DigitsVal(edig, 1, 0) - Len(fp)     \* value = Dg * 10^ev
+               sg == IF neg THEN -1 ELSE 1
+           IN  IF Dg = 0 THEN (IF neg THEN Unknown ELSE V("D", 0, 0, <<>>, TRUE))
+               ELSE IF ev >= 0 THEN (IF ev > 7 \/ ~MulFits(Dg, Pow10(ev)) THEN Unknown ELSE MkF("D", sg * Dg * Pow10(ev), 0))
+               ELSE IF -ev > 9 THEN Unknown
+               ELSE LET k == -ev  g == Pow5(k) IN
+                    IF Dg % g # 0 THEN Approx("D")              \* not a dyadic rational: inexact in binary
+                    ELSE MkF("D", sg * (Dg \div g), k)
+ParseField(f) ==
+  IF f = <<>> THEN MkI(0)
+  ELSE IF f[1] = 38 THEN        \* & octal, &H hexadecimal
+    (LET hex == Len(f) >= 2 /\ Upper(f[2]) = 72
+         ds  == SubSeq(f, IF hex THEN 3 ELSE 2, Len(f))
+         ok  == ds # <<>> /\ \A i \in 1..Len(ds) : IF hex THEN IsHexDig(ds[i]) ELSE (ds[i] >= 48 /\ ds[i] <= 55)
+     IN  IF ds # <<>> /\ ds[1] \in {43, 45} THEN Unknown
+         ELSE IF ~ok THEN Err(ETypeMismatch)
+         ELSE IF Len(ds) > 6 THEN Unknown
+         ELSE LET n == RadixVal(ds, 1, IF hex THEN 16 ELSE 8, 0) IN
+              IF n <= MaxInt THEN MkI(n) ELSE Unknown)
+  ELSE IF f[Len(f)] \in {33, 35, 37} THEN Unknown            \* a type suffix: the manual is silent
+  ELSE LET b == IF f[1] \in {43, 45} THEN Tail(f) ELSE f IN
+       IF b # <<>> /\ Upper(b[1]) \in {73, 78} THEN Unknown    \* INF / NAN words
+       ELSE ParseDecimal(f)
+
+\* VAL: the number written by the longest prefix of the (trimmed) text that is a number; 0 when
+\* no prefix is one
+RECURSIVE ValPrefix(_, _)
+ValPrefix(s, n) == IF n = 0 THEN MkI(0)
+                   ELSE LET r == ParseField(SubSeq(s, 1, n)) IN
+                        IF IsUnk(r) THEN Unknown ELSE IF IsErr(r) THEN ValPrefix(s, n - 1) ELSE r
+ValOf(s) == LET t == Trim(s) IN ValPrefix(t, Len(t))
+
+(***************************************************************************)
 (* Built-in functions (chapter 3).  Args is a sequence of values.           *)
 (***************************************************************************)
 Spaces(k) == [i \in 1..k |-> 32]
@@ -385,6 +461,7 @@ Call(f, args) ==
   [] f = "STR$" ->
         IF IsStr(args[1]) THEN Err(ETypeMismatch)
         ELSE IF ~FmtOK(args[1]) THEN Unknown ELSE MkStr(NumText(args[1]))
+  [] f = "VAL" -> IF ~IsStr(args[1]) THEN Err(ETypeMismatch) ELSE ValOf(args[1].s)
   [] f \in {"HEX$", "OCT$"} ->
         LET k == ToInt(args[1]) IN
         IF IsBad(k) THEN k ELSE MkStr(RadixDigits(U16(k.n), IF f = "HEX$" THEN 16 ELSE 8))
